@@ -673,6 +673,30 @@ class Builder:
                 body = self.fn_ir(rf[0], rf[1])
                 if body.get("returns_parser"):
                     return N("ref", e, fn=rf[0], targs=rf[1], extra=[], inline=True)
+        # a local function *building* a parser from its arguments (what `unary!`-style macros become when written as
+        # generic functions): expanded like a macro — the body with the parameters replaced by the argument expressions
+        if rf and args:
+            fn = self.facts.fns[rf[0]]
+            if self._input_name(fn) is None and "Parser<" in F.norm_ty(fn.node["output"]) and len(fn.params) == len(args) and all(n for n, _ in fn.params):
+                real = [s_ for s_ in fn.body["stmts"] if s_["k"] != "item"]
+                if len(real) == 1 and real[0]["k"] == "expr" and len(self.stack) < 40:
+                    from .normalise import _subst
+
+                    clash = [n for n, _ in fn.params if n in env and not n.startswith("__")]
+                    body = _subst(real[0]["e"], {n: a for (n, _), a in zip(fn.params, args)})
+                    mk = ("expand", rf[0])
+                    if self.stack.count(mk) < 3:
+                        self.stack.append(mk)
+                        try:
+                            # arguments are written in the caller's scope, the body in the callee's: both are searched
+                            env2 = dict(env)
+                            if tuple(fn.module) != tuple(env["__module"]):
+                                env2["__module_fallback"] = env["__module"]
+                                env2["__module"] = fn.module
+                            node = self.pe(body, env2)
+                        finally:
+                            self.stack.pop()
+                        return dict(node, expanded_from=rf[0]) if isinstance(node, dict) else node
         # context helpers are handled in mcall; constructor calls etc are not parsers
         return N("opaque", e, src=src(e), why="not a parser call")
 
